@@ -112,6 +112,19 @@ AllowedSettings(v) ==
   IF \E id \in IDS : Live(id) /\ v > iw /\ AddOverflows(sOut[id], v - iw)
     THEN SessionErr \cup Rst({RstFlow}) ELSE {"acc"}
 
+\* the case of the draft a client frame falls into (names the expectation in reports)
+WhySyn(id) == IF id % 2 = 0 THEN "syn:even" ELSE IF id < maxId THEN "syn:decreasing" ELSE IF id = maxId THEN "syn:same-id"
+              ELSE IF nOpen >= MAXS THEN "syn:over-max-streams" ELSE "syn:ok"
+WhyData(id, len) == CASE State(id) = "idle" -> "data:idle-stream" [] State(id) = "hcr" -> "data:half-closed"
+                      [] State(id) = "closed" -> "data:closed-stream"
+                      [] OTHER -> IF len > 0 /\ len > sIn[id] THEN "data:over-stream-window"
+                                  ELSE IF len > 0 /\ len > cIn THEN "data:over-session-window" ELSE "data:ok"
+WhyWu(id, d) == IF d = 0 THEN "wu:zero-delta" ELSE IF id = 0 THEN (IF AddOverflows(cOut, d) THEN "wu:session-overflow" ELSE "wu:session-ok")
+                ELSE IF ~Live(id) THEN "wu:dead-stream" ELSE IF AddOverflows(sOut[id], d) THEN "wu:stream-overflow"
+                ELSE IF sOut[id] < 0 THEN "wu:stream-ok-negative-window" ELSE "wu:stream-ok"
+WhyRst(id) == "rst:" \o State(id)
+WhySettings(v) == IF AllowedSettings(v) # {"acc"} THEN "settings:overflow" ELSE IF v < iw THEN "settings:shrink" ELSE "settings:grow"
+
 ---------------------------------------------------------------------------
 (* Layer M helpers *)
 
@@ -371,7 +384,7 @@ HWrite(id, k) ==
 HFinish(id) ==
   /\ Alive /\ Step /\ h[id] = "run"
   /\ h' = [h EXCEPT ![id] = "done"]
-  /\ react' = "acc" /\ bad' = ""
+  /\ react' = (IF st[id] = "open" THEN Tok(RstCancel) ELSE "acc") /\ bad' = ""
   /\ IF Live(id) THEN
         /\ replied' = [replied EXCEPT ![id] = TRUE]
         /\ fins' = fins \cup {id} /\ quiet' = quiet \cup {id}
